@@ -34,10 +34,7 @@ def get_cache_key(
     :return: cache key for call
     """
     kwargs = kwargs or {}
-    if not args and template and _KWARGS not in template and _ARGS not in template:
-        key_values = kwargs
-    else:
-        key_values = _get_call_values(func, args, kwargs)
+    key_values = _get_call_values(func, args, kwargs)
     _key_template = template or get_cache_key_template(func)
     return default_format(_key_template, **key_values)
 
@@ -145,14 +142,18 @@ def _get_func_signature(func: Callable):
 
 
 def _get_call_values(func: Callable, args: Args, kwargs: Kwargs):
-    if not args:
-        _kwargs = {**kwargs}
-        for name, parameter in _get_func_signature(func).parameters.items():
-            if parameter.kind != inspect.Parameter.VAR_KEYWORD and name in _kwargs:
-                del _kwargs[name]
-        return {**kwargs, _KWARGS: _kwargs}
-
-    signature = _get_func_signature(func).bind(*args, **kwargs)
+    if args:
+        signature = _get_func_signature(func).bind(*args, **kwargs)
+    else:
+        try:
+            # a keyword only call has to give the same values as its positional form
+            signature = _get_func_signature(func).bind_partial(**kwargs)
+        except TypeError:
+            _kwargs = {**kwargs}
+            for name, parameter in _get_func_signature(func).parameters.items():
+                if parameter.kind != inspect.Parameter.VAR_KEYWORD and name in _kwargs:
+                    del _kwargs[name]
+            return {**kwargs, _KWARGS: _kwargs}
     signature.apply_defaults()
     result = {}
     for _name, _value in signature.arguments.items():
